@@ -86,6 +86,10 @@ Definition ext_table (c : ectx) : list (Z * fmt) :=
    the class registered for the context (unknown types: opaque) and wholly consumed *)
 Definition Ext (c : ectx) : fmt := FTag 2 (fun t => FBounded 2 (sel_of (ext_table c) Bytes t)).
 Definition ExtList (c : ectx) : fmt := FList 2 (Ext c).
+(* the extension block of ClientHello (:637), ServerHello/HRR (:948), CertificateRequest 1.3 (:1322) and
+   EncryptedExtensions (:2009): parse() additionally rejects two extensions of the same type; a list with
+   a repeated type is outside the value domain (write() does not check) *)
+Definition ExtListU (c : ectx) : fmt := FBounded 2 (FCheck uniq_tags (FRep (Ext c))).
 
 (* ---- record layer / small messages (messages.py) -------------------------------- *)
 Definition fmt_RecordHeader3 := fseq [FU 1; FU 1; FU 1; FU 2].            (* :52-66 *)
@@ -99,7 +103,7 @@ Definition fmt_ServerHelloDone := Msg 14 FEmpty.                          (* :16
 (* ---- hellos ---------------------------------------------------------------------- *)
 (* ClientHello, TLS form (:621-637, :686-701) *)
 Definition fmt_ClientHello := Msg 1 (fseq [
-  FU 1; FU 1; FFix 32; FVarR 1 0 32; FVarList 2 2; FVarList 1 1; FOpt (ExtList CtxUniversal)]).
+  FU 1; FU 1; FFix 32; FVarR 1 0 32; FVarList 2 2; FVarList 1 1; FOpt (ExtListU CtxUniversal)]).
 
 (* ServerHello / HelloRetryRequest (:928-970): the extension context is selected by the
    value of the 32-byte random, modelled as a 32-byte tag *)
@@ -109,9 +113,9 @@ Definition HRR_RANDOM : Z :=
 Definition fmt_ServerHello := Msg 2 (fseq [
   FU 1; FU 1;
   FTag 32 (fun rnd => fseq [FVar 1; FU 2; FU 1;
-                            FOpt (ExtList (if rnd =? HRR_RANDOM then CtxHRR else CtxServer))])]).
+                            FOpt (ExtListU (if rnd =? HRR_RANDOM then CtxHRR else CtxServer))])]).
 
-Definition fmt_EncryptedExtensions := Msg 8 (ExtList CtxUniversal).       (* :1986-2014 *)
+Definition fmt_EncryptedExtensions := Msg 8 (ExtListU CtxUniversal).       (* :1986-2014 *)
 
 (* ---- certificates ------------------------------------------------------------------ *)
 Definition fmt_Certificate12 := Msg 11 (FList 3 (FVarR 3 1 16777215)).    (* :1210-1232, :1245 *)
@@ -120,7 +124,7 @@ Definition fmt_Certificate13 := Msg 11 (FSeq (FVar 1) (FList 3 CertificateEntry)
 Definition fmt_CertificateRequest (tls12 : bool) := Msg 13 (              (* :1335-1362 *)
   if tls12 then fseq [FVarList 1 1; FVarTuples 1 2 2; FList 2 (FVar 2)]
   else fseq [FVarList 1 1; FList 2 (FVar 2)]).
-Definition fmt_CertificateRequest13 := Msg 13 (FSeq (FVar 1) (ExtList CtxUniversal)).
+Definition fmt_CertificateRequest13 := Msg 13 (FSeq (FVar 1) (ExtListU CtxUniversal)).
 Definition fmt_CertificateVerify (tls12 : bool) := Msg 15 (               (* :1870-1894 *)
   if tls12 then fseq [FU 1; FU 1; FVar 2] else FVar 2).
 Definition fmt_CertificateStatus := Msg 22 (FSeq (FU 1) (FVar 3)).        (* :2323-2337 *)
